@@ -346,8 +346,8 @@ def run_check(P, tier, seed, a):
     rc = 0
     if new_viol:
         rc = 1
-    elif problems or (undec and not getattr(P, 'UNDECIDED_OK', False)):
-        rc = 2
+    elif problems or (undec and quick and not getattr(P, 'UNDECIDED_OK', False)):
+        rc = 2      # quick tier: every registered obligation must be decided; thorough tier: undecided ones are listed, not counted
     res = finish(P, tier, seed, t0, cov, violations=len(new_viol), a=a, workroot=workroot, rc=rc)
     print(f'[{pid}] obligations={stats["obligations"]} discharged={stats["discharged"]} (trivial {stats["trivial"]}) sat={len(stats["sat"])} '
           f'undecided={len(undec)} known={sum(len(vs) for e, vs in known_hits.values())} violations={len(new_viol)} '
